@@ -13,7 +13,7 @@ import numpy as np
 from .. import world as W
 from ..core import exc_brief, exc_site
 from ..prng import shuffled, weighted
-from ..realise import Mismatch, Names, build_bn, factor_to_logical, snapshot_bn, to_np
+from ..realise import Mismatch, Names, build_bn, factor_to_logical, make_cpd, snapshot_bn, to_np
 from ..refmodel import RefJoint, close, dsep, maxdiff
 
 PROP = "C13"
@@ -75,6 +75,18 @@ def generate(streams, tier):
             if t["op"] == "query_keep":
                 t.update({"op": "query", "do": {str(x): rw.randrange(world["card"][x])}, "algo": rw.choice(["ve", "bp"]), "adjust": "default", "ny": 1})
         ops.extend(tail)
+    if rw.random() < 0.3:
+        # the caller re-parameterises the live network (replaces a CPD) between two questions put to the same engine object
+        x = rw.randrange(n)
+        q = {"op": "query", "do": {str(x): rw.randrange(world["card"][x])}, "algo": rw.choice(["bp", "bp", "ve"]), "adjust": "default", "ny": rw.choice([1, 2])}
+        seq = [dict(q, pick=rw.randrange(10**6))]
+        for _ in range(rw.randint(1, 2)):
+            v = rw.randrange(n)
+            pc = [world["card"][p] for p in world["parents"][v]]
+            seq.append({"op": "replace_cpd", "node": v, "table": W.gen_table(rw, world["card"][v], pc), "pick": rw.randrange(10**6)})
+            seq.append(dict(q, pick=rw.randrange(10**6)))
+        at = rw.randint(0, len(ops))
+        ops[at:at] = seq
     return {"world": world, "config": config, "ops": ops}
 
 
@@ -264,6 +276,18 @@ def execute(case, ctx):
                 ctx.fault("object_history")
                 ci = CausalInference(model)
                 continue
+            if k == "replace_cpd":
+                v = op["node"]
+                if v >= n or len(op["table"]) != card[v] or len(op["table"][0]) != int(np.prod([card[p] for p in world["parents"][v]] or [1])):
+                    continue
+                world = copy.deepcopy(world)
+                world["tables"][v] = op["table"]
+                model.add_cpds(make_cpd(world, names, v))
+                model.check_model()
+                pristine = snapshot_bn(model)
+                ctx.event("replace_cpd", v)
+                ctx.fault("object_history")
+                continue  # the engine object `ci` stays: it must answer for the network as it is now
             if k == "do":
                 _do(ctx, op, world, names, model)
                 model = build_bn(world, config, names) if snapshot_bn(model) != pristine else model
